@@ -230,7 +230,6 @@ inline Session::Channel::Channel(Session& session, std::size_t queueCapacity, Wr
   // The magic number is used to indentify the queue in the memory dump
   new (buffer) std::uint64_t(0xFE213F716D34BCBC);
   buffer += sizeof(std::uint64_t);
-  BINLOG_VERIF_POINT("channel-magic-set");
 
   // Session* is used to separate the queues of different sessions of the program
   new (buffer) Session*(&session);
